@@ -135,6 +135,7 @@ func (in *interpreter) resetForPath(p *pathState) {
 	in.closedChans = nil
 	in.onceDone = map[*value]bool{}
 	in.crashArmed = false
+	in.mapRanges, in.reverseRange = 0, 0
 }
 
 func (in *interpreter) callTop(fn *ssa.Function, args []value) value {
